@@ -81,6 +81,8 @@ SHAPES = {
     "threshold": [("Z", "H1", 300.0, 200.0, 500.0, 5.0), ("Z", "C1", 20.0, 100.0, 2000.0, 5.0)],
     "zero_duty_isothermal": [("Z", "H1", 200.0, 100.0, 1000.0, 5.0), ("Z", "N1", 120.0, 120.0, 0.0, 5.0), ("Z", "C1", 50.0, 180.0, 1300.0, 5.0)],
     "latent_hot_given_as_negative_duty": [("Z", "L1", 100.0, 100.0, -500.0, 5.0), ("Z", "C1", 20.0, 80.0, 300.0, 5.0)],
+    "latent_cold_at_the_hot_end_of_another_stream": [("Z", "H1", 200.0, 100.0, 500.0, 5.0), ("Z", "L1", 100.0, 100.0, 800.0, 5.0)],
+    "latent_hot_at_the_cold_end_of_another_stream": [("Z", "C1", 50.0, 150.0, 500.0, 5.0), ("Z", "L1", 150.0, 150.0, -800.0, 5.0)],
     "very_unequal_duties": [("Z", "H1", 200.0, 100.0, 2.0e6, 5.0), ("Z", "C1", 50.0, 80.0, 5.0, 5.0)],
     "balanced": [("Z", "H1", 200.0, 100.0, 1000.0, 0.0), ("Z", "C1", 100.0, 200.0, 1000.0, 0.0)],
 }
@@ -127,7 +129,8 @@ def ob_service(h):
         return        # area targeting is defined for strictly positive contributions only (C15's domain)
     # recorded finding of C03: a latent stream at the end of the temperature range leaves the default utility without duty, so the
     # balanced curves that area targeting needs do not balance
-    h.exclude_known("KF-C03-default-glide", bool(opt.get("DO_AREA_TARGETING")) and shape in ("single_latent", "latent_hot_given_as_negative_duty") and utils == "none")
+    h.exclude_known("KF-C03-default-glide", bool(opt.get("DO_AREA_TARGETING")) and shape in ("single_latent", "latent_hot_given_as_negative_duty", "latent_cold_at_the_hot_end_of_another_stream",
+                                                                                        "latent_hot_at_the_cold_end_of_another_stream") and utils == "none")
     with native():
         out1 = main.pinch_analysis_service(json.loads(json.dumps(prob)), project_name="Site")
         out2 = main.pinch_analysis_service(json.loads(json.dumps(prob)), project_name="Site")
